@@ -65,9 +65,13 @@ func init() {
 					obs["session"] = w.sessionCookieEffect(cb)
 				case "rewrite":
 					text := render(v2, 2, vpS(c.In, "emptyStyle"))
-					tmp := w.emailsPath + ".tmp"
-					os.WriteFile(tmp, []byte(text), 0o600)
-					os.Rename(tmp, w.emailsPath)
+					if vpS(c.In, "style") == "inplace" {
+						os.WriteFile(w.emailsPath, []byte(text), 0o600) // truncate and write
+					} else {
+						tmp := w.emailsPath + ".tmp"
+						os.WriteFile(tmp, []byte(text), 0o600)
+						os.Rename(tmp, w.emailsPath)
+					}
 					// completion: the new version's sentinel is in force, or (nobody listed any more) the old one is gone
 					deadline := time.Now().Add(5 * time.Second)
 					done := false
